@@ -131,7 +131,7 @@ def gen_static_tx(rng, atoms, depth, heads=("U", "I", "X", "S", "H", "CC")):
 
 
 # --------------------------------------------------------------------------- programs
-VALUE_POOL = [["v", 0], ["v", 1], ["v", 2], ["v", 3], ["v", 4], ["v", -1], ["mi", 1], ["mi", 2], ["mi", 4],
+VALUE_POOL = [["v", 1000], ["v", 0], ["v", 1], ["v", 2], ["v", 3], ["v", 4], ["v", -1], ["mi", 1], ["mi", 2], ["mi", 4],
               ["v", "a"], ["v", "ab"], ["v", "b"], ["v", True], ["v", False], ["v", None], ["v", 2.5]]
 
 
@@ -145,7 +145,7 @@ def gen_dep_tx(rng, pool):
     r = rng.random()
     if r < 0.4:
         k = rng.choice([1, 1, 2, 3])
-        vals = rng.sample([0, 1, 2, 3, 4], k)
+        vals = rng.sample([0, 1, 2, 3, 4, 1000], k)
         return ["L", *vals]
     if r < 0.5:
         return ["L", *rng.sample(["a", "ab", "b"], rng.choice([1, 2]))]
